@@ -146,6 +146,12 @@ func NewFloatFromString(typ *types.FloatType, s string) (*Float, error) {
 			if err != nil {
 				return nil, errors.WithStack(err)
 			}
+			if a&0x7FF0000000000000 == 0x7FF0000000000000 {
+				// The first double is an infinity or a NaN and decides the value,
+				// whatever the second double holds (the sum of the two need not
+				// exist, e.g. for +Inf and -Inf).
+				b = 0
+			}
 			f := float128ppc.NewFromBits(a, b)
 			x, nan := f.Big()
 			if nan && a>>63 == 1 && !x.Signbit() {
